@@ -179,6 +179,11 @@ impl<'t, 'd> Pr<'t, 'd> {
                     self.target(g, target, true);
                     self.quiet -= 1;
                 } else {
+                    // now and then a line comment right above the statement (rules that copy the
+                    // target must not copy that comment)
+                    if matches!(g, G::Line) && self.active() && self.tb(60) {
+                        self.own_line_comment();
+                    }
                     self.target(g, target, true);
                 }
                 let sym = format!("{}=", op.symbol());
